@@ -274,11 +274,15 @@ Section Conf.
       match obj with VIface dyn _ => deftag_of S dyn | _ => 0 end.
 
     (** fields written and read one after the other, each required, none looking ahead past
-        a following element with its own tag: [keeps] for each, in order *)
+        a following element with its own tag (a pointer or slice field has a tag no later field
+        of the run has, as in [wf_fields]): [keeps] for each, in order *)
     Fixpoint conf_required (st : vstate) (fl : list field) (vl : list value) : bool :=
       match fl, vl with
       | [], [] => true
-      | fd :: fl', x :: vl' => pos_field fd && negb (f_omit fd) && keeps st (f_ty fd) (f_tag fd) x && conf_required st fl' vl'
+      | fd :: fl', x :: vl' =>
+        pos_field fd && negb (f_omit fd) &&
+        (if lookahead (f_ty fd) then forallb (fun g => negb (f_tag g =? f_tag fd)) fl' else true) &&
+        keeps st (f_ty fd) (f_tag fd) x && conf_required st fl' vl'
       | _, _ => false
       end.
 
